@@ -68,7 +68,20 @@ def _misses(d):
     return dm, im
 
 
+def _configured_penalties(c):
+    import simspy
+    r = simspy.run(c)
+    if r is None or r["fault"]:
+        return []
+    if r["cycles"] != r["cycles_ref"]:
+        return [Failure("oracle", PROP, f"{r['cycles']} cycles for {r['steps']} steps; one per step plus the configured penalty for every miss of a cache of the CONFIGURED geometry gives {r['cycles_ref']} ({r['mode']})", "schedule:penalty-vs-configured")]
+    return []
+
+
 def oracle(c):
+    f_ = _configured_penalties(c)
+    if f_:
+        return f_
     fails = []
     new = next((l for l in c.lines if l.startswith("sim.new")), None)
     if new is None or not any(l.startswith("sim.prog") for l in c.lines):
